@@ -232,8 +232,14 @@ func (c *idConf) consistency() string {
 }
 
 func newConf(name, declared, pem, format string, D, S, U, O, X *party) *idConf {
+	return newConfPub(name, declared, keys.EncPub(declared), pem, format, D, S, U, O, X)
+}
+
+// newConfPub: the declared public key is given as a value (keys that exist in
+// no file: the negation of an Ed25519 key, an RSA key with another exponent).
+func newConfPub(name, declared string, pub ssh.PublicKey, pem, format string, D, S, U, O, X *party) *idConf {
 	c := &idConf{name: name, declared: declared, pem: pem, format: format, D: D, S: S, U: U, O: O,
-		consistent: D == S, pub: keys.EncPub(declared), pemBytes: keys.Data(pem), byName: map[string]*fileKind{}}
+		consistent: D == S, pub: pub, pemBytes: keys.Data(pem), byName: map[string]*fileKind{}}
 	add := func(ext bool, n string, ps ...*party) *fileKind {
 		f := buildFile(name, n, D, S, ps...)
 		c.byName[n] = f
@@ -546,6 +552,15 @@ func runHistory(r *mon.Run, col *collector, b *batch, h []step) (recs []stepRec)
 	}
 	r.Eval(1)
 	r.Count("decrypt_steps", int64(len(h)))
+	if strings.HasPrefix(c.name, "ed25519-declared-negation") {
+		r.Count("negated_key_histories", 1)
+		if len(h) >= 2 && h[0].f.name == "D" && h[1].f.name == "S" {
+			r.Count("negated_key_history_declared_then_stored", 1)
+		}
+		if len(h) >= 2 && h[0].f.name == "S" && h[1].f.name == "D" {
+			r.Count("negated_key_history_stored_then_declared", 1)
+		}
+	}
 	if b.exact {
 		r.Count("enumerated_histories", 1)
 	} else {
@@ -680,7 +695,10 @@ func main() {
 	r.Rule = "case = one history: a fresh agessh.EncryptedSSHIdentity (declared public key, encrypted private-key file) and a sequence of age.Decrypt calls on that one value, " +
 		"each step = (file kind, passphrase-callback behaviour right/wrong/error); evaluations = histories executed; every step of every history is compared with the 1-bit model " +
 		"(number of callback invocations, outcome class plaintext-equal / no-match / other error); distinct by (identity configuration, full step sequence). " +
-		"exhaustive refers to the Ed25519 spaces (all histories up to the stated length over the stated alphabet for the consistent and the inconsistent identity) and to all histories of length <= 2 on the consistent 2500-bit and 2052-bit RSA identities; the other RSA and the cross-type identities are sampled"
+		"exhaustive refers to the enumerated history spaces, each complete up to the stated length over its stated alphabet (see coverage histories:*): " +
+		"Ed25519 consistent and inconsistent-unrelated identities over the full alphabet (quick <= 2, thorough <= 3) and over the alphabet with the four multi-stanza positions folded into one symbol (quick <= 3, thorough <= 4); " +
+		"identities declaring the negation of the stored Ed25519 key (<= 3) and the stored RSA modulus with exponent 3 (quick <= 2, thorough <= 3) over files to the declared key / stored key / both in both orders / neither; " +
+		"consistent 2500-bit and 2052-bit RSA identities (<= 2); the explicit near-tag histories. The other RSA and the cross-type identities are sampled"
 	r.Assumptions = []string{
 		"fixed key files: OpenSSH/bcrypt (ssh-keygen -a 2) Ed25519 and RSA, legacy PEM (AES-128-CBC) RSA; RSA moduli of 2048, 2500 and 2052 bits; one right passphrase; wrong = another string, passphrase plus a space, empty, nil",
 		"every step is age.Decrypt with the identity as the only identity, on a well-formed file built by refage; a stanza of the identity's type without arguments is outside the alphabet (C14)",
@@ -688,9 +706,10 @@ func main() {
 		"near-tag stanzas (first argument close to but not the 6-character tag; classes a-i in tagvar.go): a locked identity must not ask; where the stanza is malformed for its own type (argument count, key share) a hard error is accepted in place of no-match; after a legitimate unlock the expected outcome is what the tree's own plain identity answers on that stanza list (Appendix B: unlocked = plain identity); arguments with white space or NUL cannot occur in a header and are run at the Unwrap level only",
 		"multi-identity stage: one age.Decrypt per case over headers of 2..3 (thorough 4) distinct stanzas from {X25519, ssh-ed25519 x2, ssh-rsa x2, unknown} in every order and lists of 2..3 distinct identity kinds in every order, fresh identity values per case; an identity after the one that ends the call may or may not be consulted (at most one prompt, none without a stanza of its own); Unwrap-level sequences on one shared stanza slice compared with a deep snapshot, including two elements of spare capacity",
 		"CLI stage: one `age -d -i KEY -o out FILE` run per case on a pty (fresh process, so one step per identity); the identity's public key is the one embedded in an OpenSSH-format key file, else the sibling .pub; a no-match failure is recognised by the tool's message \"no identity matched\"",
-		"thorough length-4 enumeration folds the four multi-stanza positions into one symbol whose position is fixed per (history, step); all four positions are separate symbols up to length 3",
+		"folded enumerations (quick length 3, thorough length 4) replace the four multi-stanza positions by one symbol whose position is fixed per (history, step) by a seed-independent hash; all four positions are separate symbols up to length 2 (quick) / 3 (thorough). Quick was reduced from the full alphabet at length 3 to stay within ~350 CPU-seconds",
+		"algebraically related inconsistent pairs: declared Ed25519 key = negation of the stored key (same Montgomery u-coordinate, other wire encoding, tag and tweak); declared RSA key = stored modulus with public exponent 3; a modulus spelled with a leading zero byte is not a distinct value in x/crypto/ssh (recorded under coverage.rsa_modulus_with_leading_zero)",
 	}
-	r.MinEvals, r.MinDistinct = 20000, 20000
+	r.MinEvals, r.MinDistinct = 10000, 10000
 
 	if n, err := refage.SelfCheck(); err != nil {
 		fmt.Fprintf(os.Stderr, "refage self-check failed after %d vectors: %v\n", n, err)
@@ -731,6 +750,58 @@ func main() {
 	rsaOddIncons2 := newConf("rsa-inconsistent-2052-declared-2500-stored", "enc_rsa2052", "enc_rsa2500", "openssh-bcrypt", encRsa2052, encRsa2500, r4, e1, x1)
 	all := []*idConf{edCons, edIncons, edCons2, edIncons2, rsaConsO, rsaConsP, rsaInconsP, rsaInconsO, crossER, crossRE,
 		rsa2500Cons, rsa2052Cons, rsaOddIncons, rsaOddIncons2}
+
+	// Inconsistent pairs whose keys are algebraically related. Ed25519: the
+	// declared key is the negation -A of the stored key A (bit 255 of the
+	// encoding flipped): another SSH key (wire encoding, tag, tweak) with the
+	// same Montgomery u-coordinate. RSA: the stored modulus with the public
+	// exponent 3 instead of 65537.
+	var negConfs []*idConf
+	var negParties []*party
+	for _, of := range []*party{encEd1, encEd2} {
+		np, pub, err := negEdParty(of)
+		if err != nil {
+			r.Set("negated_key_"+of.name, "not constructible: "+err.Error())
+			continue
+		}
+		c, err := tryConf(func() *idConf {
+			return newConfPub("ed25519-declared-negation-of-stored-"+of.name, "neg("+of.name+")", pub, of.name, "openssh-bcrypt", np, of, e1, r1, x1)
+		})
+		if err != nil {
+			r.Set("negated_key_"+of.name, "identity not constructible: "+err.Error())
+			continue
+		}
+		if _, err := agessh.NewEncryptedSSHIdentity(pub, keys.Data(of.name), func() ([]byte, error) { return nil, errCallback }); err != nil {
+			r.Set("negated_key_"+of.name, "NewEncryptedSSHIdentity refuses it: "+err.Error())
+			continue
+		}
+		r.Set("negated_key_"+of.name, "constructed; tag "+np.tag()+" (stored key's tag "+of.tag()+")")
+		negConfs = append(negConfs, c)
+		negParties = append(negParties, np)
+		all = append(all, c)
+	}
+	var rsaE3 *idConf
+	{
+		e3 := &party{name: "enc_rsa1(e=3)", typ: "ssh-rsa", rsaPub: &rsa.PublicKey{N: encRsa1.rsaPub.N, E: 3}}
+		pub, err := ssh.NewPublicKey(e3.rsaPub)
+		if err == nil {
+			_, err = agessh.NewEncryptedSSHIdentity(pub, keys.Data("enc_rsa1"), func() ([]byte, error) { return nil, errCallback })
+		}
+		if err == nil {
+			rsaE3, err = tryConf(func() *idConf {
+				return newConfPub("rsa-declared-same-modulus-exponent-3", "enc_rsa1(e=3)", pub, "enc_rsa1", "openssh-bcrypt", e3, encRsa1, r1, e1, x1)
+			})
+		}
+		if err != nil {
+			r.Set("rsa_same_modulus_other_exponent", "not constructible: "+err.Error())
+		} else {
+			r.Set("rsa_same_modulus_other_exponent", "constructed; tag "+e3.tag()+" (stored key's tag "+encRsa1.tag()+")")
+			all = append(all, rsaE3)
+		}
+		// the same modulus with a leading zero byte in the wire encoding
+		wire := refage.SSHRSAWire(encRsa1.rsaPub)
+		r.Set("rsa_modulus_with_leading_zero", leadingZeroProbe(wire, encRsa1.rsaPub))
+	}
 
 	// start-up sanity: the workload is what it claims to be (else inconclusive, never a verdict)
 	for _, c := range all {
@@ -777,27 +848,42 @@ func main() {
 
 	// batches
 	var batches []*batch
-	L := 3
+	// Ed25519 consistent / inconsistent (unrelated keys). The four multi-stanza
+	// positions M0..M3 are separate symbols in the "full" alphabet and one
+	// symbol (position fixed per history and step) in the "folded" one.
+	//   quick:    full alphabet, all histories of length <= 2; folded, length <= 3
+	//   thorough: full alphabet, length <= 3;                  folded, length <= 4
+	fold := func(c *idConf) []*fileKind {
+		var folded []*fileKind
+		seenM := false
+		for _, f := range c.base {
+			if strings.HasPrefix(f.name, "M") {
+				if !seenM {
+					folded = append(folded, nil)
+					seenM = true
+				}
+				continue
+			}
+			folded = append(folded, f)
+		}
+		return folded
+	}
 	for _, c := range []*idConf{edCons, edIncons} {
-		batches = append(batches, enumBatch(c, fmt.Sprintf("all-histories-len<=%d", L), alphabetOf(c.base), L))
+		fullL, foldL := r.Pick(2, 3), r.Pick(3, 4)
+		batches = append(batches, enumBatch(c, fmt.Sprintf("all-histories-len<=%d", fullL), alphabetOf(c.base), fullL))
+		batches = append(batches, enumBatch(c, fmt.Sprintf("all-histories-len<=%d-folded-positions", foldL), alphabetOf(fold(c)), foldL))
 		r.Set("alphabet_"+c.name, fmt.Sprintf("%d file kinds x 3 callback behaviours", len(c.base)))
 	}
-	if r.Thorough() {
-		for _, c := range []*idConf{edCons, edIncons} {
-			var folded []*fileKind
-			seenM := false
-			for _, f := range c.base {
-				if strings.HasPrefix(f.name, "M") {
-					if !seenM {
-						folded = append(folded, nil)
-						seenM = true
-					}
-					continue
-				}
-				folded = append(folded, f)
-			}
-			batches = append(batches, enumBatch(c, "all-histories-len<=4-folded-positions", alphabetOf(folded), 4))
-		}
+	// algebraically related inconsistent pairs: files to the declared key, the
+	// stored key, both (both orders), neither
+	related := func(c *idConf) []sym {
+		return alphabetOf([]*fileKind{c.byName["D"], c.byName["S"], c.byName["SD"], c.byName["DS"], c.byName["U"]})
+	}
+	for _, c := range negConfs {
+		batches = append(batches, enumBatch(c, "all-histories-len<=3-declared-stored-both-neither", related(c), 3))
+	}
+	if rsaE3 != nil {
+		batches = append(batches, enumBatch(rsaE3, "all-histories-len<=2-declared-stored-both-neither", related(rsaE3), r.Pick(2, 3)))
 	}
 	r.Set("max_history_length_enumerated", r.Pick(3, 4))
 	// RSA keys of 2500 and 2052 bits: all histories of length <= 2 on the
@@ -816,12 +902,12 @@ func main() {
 	if r.Counter("sanity_failures") != 0 {
 		r.Finish()
 	}
-	nS := r.Pick(100, 1500)
+	nS := r.Pick(40, 1500)
 	for _, c := range []*idConf{rsaConsO, rsaConsP, rsaInconsP, rsaInconsO, rsa2500Cons, rsa2052Cons, rsaOddIncons, rsaOddIncons2} {
 		batches = append(batches, sampleBatch(r, c, nS, 6))
 	}
 	for _, c := range []*idConf{crossER, crossRE, edCons2, edIncons2, edCons, edIncons} {
-		batches = append(batches, sampleBatch(r, c, r.Pick(80, 1500), 6))
+		batches = append(batches, sampleBatch(r, c, r.Pick(40, 1500), 6))
 	}
 	t := true
 	r.Exhaustive = &t
@@ -856,6 +942,21 @@ func main() {
 		}
 	})
 
+	// the negated-key identities must have been built and run
+	if os.Getenv("C19_STAGE") == "" {
+		if len(negConfs) == 0 {
+			r.Inconclusive("no identity with declared = negation of the stored Ed25519 key could be constructed")
+		}
+		if n := r.Counter("negated_key_histories"); n < 1000 {
+			r.Inconclusive("only %d histories ran on a negated-key identity", n)
+		}
+		for _, need := range []string{"negated_key_history_declared_then_stored", "negated_key_history_stored_then_declared"} {
+			if r.Counter(need) == 0 {
+				r.Inconclusive("no history %s ran", need)
+			}
+		}
+	}
+
 	// the workload must have exercised what the property talks about
 	for _, need := range []string{"prompts", "unlock_transitions", "decrypted_from_cache_without_prompt"} {
 		if r.Counter(need) < 100 && total > 0 {
@@ -881,10 +982,64 @@ func main() {
 		if os.Getenv("C19_STAGE") == "" {
 			nearTagVacuity(r, []string{"ed25519", "rsa-openssh", "rsa-pem"})
 		}
-		multiStages(r, ps)
+		var negKind *idKind
+		if len(negConfs) > 0 {
+			negKind = &idKind{name: "encrypted-ed25519-declared-negated", enc: negConfs[0].pem, key: negParties[0], pub: negConfs[0].pub, mismatch: true, stored: negConfs[0].S}
+		}
+		multiStages(r, ps, negKind)
+	}
+	if len(negParties) > 0 {
+		ps["neg(enc_ed1)"] = negParties[0]
 	}
 	cliStage(r, ps)
 	r.Finish()
+}
+
+// negEdParty returns the party and SSH public key of -A for the Ed25519 key A.
+func negEdParty(of *party) (*party, ssh.PublicKey, error) {
+	b := append([]byte(nil), of.edPub...)
+	b[31] ^= 0x80
+	pub, err := ssh.NewPublicKey(ed25519.PublicKey(b))
+	if err != nil {
+		return nil, nil, err
+	}
+	return &party{name: "neg(" + of.name + ")", typ: "ssh-ed25519", edPub: b}, pub, nil
+}
+
+// tryConf builds a configuration, turning a panic of the file builders (a key
+// the reference cannot encrypt to) into an error.
+func tryConf(f func() *idConf) (c *idConf, err error) {
+	defer func() {
+		if x := recover(); x != nil {
+			err = fmt.Errorf("%v", x)
+		}
+	}()
+	return f(), nil
+}
+
+// leadingZeroProbe: can an ssh-rsa public key whose modulus is spelled with an
+// extra leading zero byte exist as a distinct value?
+func leadingZeroProbe(wire []byte, pub *rsa.PublicKey) string {
+	// wire = string "ssh-rsa", mpint e, mpint n
+	rd := func(b []byte) ([]byte, []byte) {
+		n := int(b[0])<<24 | int(b[1])<<16 | int(b[2])<<8 | int(b[3])
+		return b[4 : 4+n], b[4+n:]
+	}
+	typ, rest := rd(wire)
+	e, rest := rd(rest)
+	n, _ := rd(rest)
+	enc := func(b []byte) []byte {
+		return append([]byte{byte(len(b) >> 24), byte(len(b) >> 16), byte(len(b) >> 8), byte(len(b))}, b...)
+	}
+	crafted := append(append(enc(typ), enc(e)...), enc(append([]byte{0}, n...))...)
+	k, err := ssh.ParsePublicKey(crafted)
+	if err != nil {
+		return "x/crypto/ssh rejects the encoding: " + err.Error()
+	}
+	if bytes.Equal(k.Marshal(), wire) {
+		return "parses, but the value re-encodes canonically: it is the stored key itself, not an inconsistent pair (skipped)"
+	}
+	return "parses to a value with another wire encoding (not exercised)"
 }
 
 func pubOf(p *party) []byte {
